@@ -220,7 +220,7 @@ class SegmentationDescriptor(SpliceDescriptor):
                 tag = r.get(8, 'tag')
                 r.get(7, 'reserved')
                 pts_offset = r.get(33, 'pts_offset')
-                kwargs['components'].push({
+                kwargs['components'].append({
                     'component_tag': tag,
                     'pts_offset': pts_offset
                 })
@@ -262,6 +262,7 @@ class SegmentationDescriptor(SpliceDescriptor):
             w.write(2, 'device_restrictions')
         if not self.program_segmentation_flag:
             self.component_count = len(self.components)
+            w.write(8, 'component_count')
             for comp in self.components:
                 w.write(8, 'tag', value=comp['component_tag'])
                 w.write(7, 'reserved', value=0x7F)
